@@ -1073,11 +1073,23 @@ class Machine:
             elif b & 0xC0 == 0xC0:
                 i += 1
                 opts = False
+                optdesc = ""
+                flags = None
                 if b & 0x01:
+                    flags = int.from_bytes(data[i:i + 4], "little")
                     i += 4
-                    opts = True
                 if b & 0x02:
+                    width = data[i] | (data[i + 1] << 8)
                     i += 2
+                    if b & 0x10 or flags is None:
+                        opts = True          # indirect width / width without flags: not modelled
+                    else:
+                        fill = chr(flags & 0x1FFFFF)
+                        align = {0: "<", 1: ">", 2: "^", 3: ""}[(flags >> 29) & 3]
+                        if flags & (0x7 << 21) or flags & (1 << 24) or flags & (3 << 25):
+                            opts = True      # sign / alternate / zero-pad-aware / debug-hex flags: not modelled
+                        optdesc = ":%s%s%d" % (fill, align, width)
+                elif flags is not None and flags != (0x20 | (3 << 29)):
                     opts = True
                 if b & 0x04:
                     i += 2
@@ -1091,7 +1103,9 @@ class Machine:
                     parts.append(Hole(Top("format placeholder with options")))
                 else:
                     a = strip_ref(argv[idx])
-                    if isinstance(a, FmtArg):
+                    if isinstance(a, FmtArg) and optdesc:
+                        parts.append(Hole(a.v, a.fmt + optdesc))
+                    elif isinstance(a, FmtArg):
                         if isinstance(a.v, Tmpl) and a.fmt == "display":
                             parts.append(a.v)
                         else:
